@@ -5,13 +5,12 @@ DRIVER = "drv_c10"
 THOROUGH_MODULES = ["RkVerif.Model.C10", "RkVerif.Lemmas.C10"]
 
 _SRCS = ["rkcommon/utility/ParameterizedObject.cpp", "rkcommon/utility/demangle.cpp"]
+# one binary per instantiation (-DC10_ONLY=<k> compiles only that one): a tree on which one key type no longer
+# compiles (e.g. because FlatMap starts to need operator<) still has the others searched for a failing input
 HARNESSES = [
-    dict(name="c10", src="harness/c10.cpp", repo_srcs=_SRCS, args=[m], mode=m)
-    for m in ("ii", "ss", "si", "is", "ti")
+    dict(name="c10" + m, src="harness/c10.cpp", repo_srcs=_SRCS, args=[m], mode=m, flags=["-DC10_ONLY=%d" % k])
+    for k, m in enumerate(("ii", "ss", "si", "is", "ti"))
 ]
-# one binary, four instantiations
-for h in HARNESSES:
-    h["name"] = "c10"
 
 RULE = ("random operation histories over FlatMap<int|string, int|string> (4 instantiations) and "
         "ParameterizedObject with 6 payload types, key/name alphabets of 4 so that collisions, re-insertion "
